@@ -222,7 +222,20 @@ func (z *zipkinNDDecoderV2) Decode() error {
 	scanner := bufio.NewScanner(z.ctx.bodyReader)
 	scanner.Split(bufio.ScanLines)
 	for scanner.Scan() {
-		err := z.decodeSpan(scanner.Bytes())
+		line := scanner.Bytes()
+		// every line is one span: start from a clean state and keep the line as the span's payload,
+		// as the array decoder does
+		z.traceId = nil
+		z.spanId = nil
+		z.timestampNs = 0
+		z.durationNs = 0
+		z.parentId = ""
+		z.name = ""
+		z.serviceName = ""
+		z.key = z.key[:0]
+		z.val = z.val[:0]
+		z.payload = append([]byte{}, line...)
+		err := z.decodeSpan(line)
 		if err != nil {
 			return custom_errors.NewUnmarshalError(err)
 		}
